@@ -98,6 +98,8 @@ func (c *evalCtx) deref(v Value) Value {
 
 func (c *evalCtx) intOf(v Value) *Term {
 	switch x := v.(type) {
+	case VUndef:
+		return Fresh("undef", SInt)
 	case VInt:
 		return x.T
 	case VBigRef:
@@ -190,7 +192,27 @@ func (c *evalCtx) eval(x ast.Expr) Value {
 			}
 			return v
 		case VSlice:
-			return c.withHeap(func() Value { return c.e.sliceAt(c.s, b, idx) })
+			if b.Obj == nil && b.Pure == nil {
+				// a nil slice indexed under a guard that is false for it (forall over an empty range, a
+				// conjunct after a failing length equation): the element is an undefined value
+				return VUndef{}
+			}
+			var out Value
+			func() {
+				defer func() {
+					if r := recover(); r != nil {
+						if _, ok := r.(pathEnd); ok {
+							out = VUndef{}
+							return
+						}
+						panic(r)
+					}
+				}()
+				out = c.withHeap(func() Value { return c.e.sliceAt(c.s, b, idx) })
+			}()
+			return out
+		case VUndef:
+			return VUndef{}
 		case VSpecTuple:
 			if idx.IsConst() {
 				k := idx.Val.Int64()
@@ -239,7 +261,14 @@ func (c *evalCtx) eval(x ast.Expr) Value {
 	panic(execError{fmt.Sprintf("contract: unsupported expression %s (%T)", exprString(x), x)})
 }
 
+// VUndef: the value of a contract expression that is not defined in this state (an element of a nil
+// slice).  It propagates through selections and becomes an unconstrained term where a term is needed.
+type VUndef struct{}
+
 func (c *evalCtx) selectField(base Value, name string, x ast.Expr) Value {
+	if _, ok := base.(VUndef); ok {
+		return VUndef{}
+	}
 	if iv, ok := base.(VIface); ok {
 		if p, isPtr := iv.V.(VPtr); isPtr {
 			base = p // a concrete pointer boxed in an interface (e.g. a Gate)
@@ -320,6 +349,12 @@ func (c *evalCtx) evalBinary(n *ast.BinaryExpr) Value {
 }
 
 func (c *evalCtx) valuesEqual(l, r Value, n ast.Expr) *Term {
+	if _, ok := l.(VUndef); ok {
+		return Fresh("undef.eq", SBool)
+	}
+	if _, ok := r.(VUndef); ok {
+		return Fresh("undef.eq", SBool)
+	}
 	if _, ok := r.(VNilT); ok {
 		return c.isNil(l)
 	}
@@ -454,6 +489,8 @@ func (c *evalCtx) evalCall(n *ast.CallExpr) Value {
 	case "len":
 		v := c.deref(c.eval(n.Args[0]))
 		switch x := v.(type) {
+		case VUndef:
+			return VInt{Fresh("undef.len", SInt)}
 		case VSlice:
 			return VInt{x.Len}
 		case VArr:
@@ -491,6 +528,16 @@ func (c *evalCtx) evalCall(n *ast.CallExpr) Value {
 		return VStr{App("str.splitpiece", SStr, c.eval(n.Args[0]).(VStr).T, c.eval(n.Args[1]).(VStr).T, c.intOf(c.eval(n.Args[2])))}
 	case "trimspace":
 		return VStr{App("str.trimspace", SStr, c.eval(n.Args[0]).(VStr).T)}
+	case "isdecimal":
+		return VBool{App("isDecimal", SBool, c.eval(n.Args[0]).(VStr).T)}
+	case "bigofdecimal":
+		return VInt{App("bigOfDecimal", SInt, c.eval(n.Args[0]).(VStr).T)}
+	case "nilbig":
+		// option encoding used under `flag bigint-boxing`: 2*value, or 1 for a nil *big.Int (which gnark refuses
+		// when the assignment becomes a witness)
+		return VBool{Eq(Mod(c.intOf(c.eval(n.Args[0])), Int64C(2)), Int64C(1))}
+	case "bigval":
+		return VInt{Div(c.intOf(c.eval(n.Args[0])), Int64C(2))}
 	case "toint":
 		return VInt{StrToInt(c.eval(n.Args[0]).(VStr).T)}
 	case "strlen":
